@@ -183,15 +183,39 @@ func pipeline() {
 	wg.Wait()
 }
 
+// classifyResp names the response by its source.  "Exactly that response" includes the body: a
+// response whose status line / headers come from one source and whose body carries bytes of
+// another one (the backend's body, a filter's body) is "mixed".
 func classifyResp(r *e2e.Response) string {
 	src := r.Header.Get("X-Verif-Src")
+	body := string(r.Body)
+	foreign := func(own string) bool {
+		rest := body
+		if own != "" {
+			rest = strings.Replace(rest, own, "", 1)
+		}
+		return strings.Contains(rest, "backend") || strings.Contains(rest, "filter:")
+	}
 	switch {
-	case r.Status == 200 && src == "backend" && string(r.Body) == "backend":
-		return "backend"
-	case r.Status == 403 && strings.HasPrefix(src, "filter:") && string(r.Body) == src:
-		return src
+	case r.Status == 200 && src == "backend":
+		if body == "backend" {
+			return "backend"
+		}
+		return "mixed"
+	case r.Status == 403 && strings.HasPrefix(src, "filter:"):
+		if body == src {
+			return src
+		}
+		return "mixed"
 	case r.Status == 302 && strings.HasPrefix(r.Header.Get("Location"), "http://redirect.example/"):
+		// the redirect's own body is empty or a short note naming the target; nothing of any other response
+		if foreign("") || src != "" {
+			return "mixed"
+		}
 		return "redirect:" + strings.TrimPrefix(r.Header.Get("Location"), "http://redirect.example/")
+	}
+	if foreign("") {
+		return "mixed"
 	}
 	return "other"
 }
@@ -268,6 +292,9 @@ func runPipeCase(s *e2e.Server, reg *pipeReg, c *pipeCase) {
 			}
 		} else {
 			sent = classifyResp(r)
+			out["status"] = r.Status
+			out["body"] = fmt.Sprintf("%.200q", r.Body)
+			out["clen"] = r.ContentLength
 			if r.BodyErr != "" {
 				note = "body: " + r.BodyErr
 			}
